@@ -23,7 +23,14 @@ without=$(cd lib && go test $tags -vet=off -count=1 -run "^$name" $pkg 2>&1 | gr
 git apply $d/patch.diff
 echo "with change:    $with"; echo "without change: $without"
 # run the checks against /repo with the patch applied
-cd /repo && git apply $d/patch.diff || { echo "PATCH DOES NOT APPLY TO /repo"; exit 1; }
+# SEED_VIA_WT=1: build the checks against the agent's worktree (development aid VERIF_REPO_LIB) instead of patching /repo,
+# for use while something else is building from /repo
+if [ -n "$SEED_VIA_WT" ]; then
+  (cd /repo && git apply --check $d/patch.diff) || { echo "PATCH DOES NOT APPLY TO /repo"; exit 1; }
+  export VERIF_REPO_LIB=$wt/lib
+else
+  cd /repo && git apply $d/patch.diff || { echo "PATCH DOES NOT APPLY TO /repo"; exit 1; }
+fi
 res=""
 for c in $checks; do
   out=$(cd /verif && VERIF_REPLAY_DIR=/tmp/seed-replays-$sid ./check $c --no-evidence 2>&1)
@@ -31,12 +38,12 @@ for c in $checks; do
   echo "check $c: $v violation lines; $first"
   res="$res{\"check\":\"$c\",\"violation_lines\":$v,\"first\":$(python3 -c 'import json,sys;print(json.dumps(sys.argv[1]))' "$first")},"
 done
-git -C /repo checkout -- . ; git -C /repo status --short | head -3
+[ -z "$SEED_VIA_WT" ] && git -C /repo checkout -- . ; git -C /repo status --short | head -3
 python3 - "$d" "$sid" "$prop" "$with" "$without" "[${res%,}]" <<'PY'
 import json,sys
 d,sid,prop,w,wo,res=sys.argv[1:7]
 meta={"seed_id":sid,"breaks_property":prop,"demo_with_change":w,"demo_without_change":wo,"checks_run":json.loads(res),
-      "how_run":"patch.diff applied to /repo (git apply), ./check <ID> --no-evidence at VERIF_SEED=1 quick tier, then git checkout -- ."}
+      "how_run":"patch.diff applied to /repo (git apply) - or, while other runs were building from /repo, the checks built against the worktree holding the patch (VERIF_REPO_LIB) - then ./check <ID> --no-evidence at VERIF_SEED=1 quick tier, then git checkout -- ."}
 try:
     old=json.load(open(d+'/meta.json')); meta={**old,**meta}
 except Exception: pass
